@@ -40,9 +40,9 @@ type Worker struct {
 
 // Pool is a set of workers handing out calls.
 type Pool struct {
-	ch chan *Worker
-	ws []*Worker
-	mu sync.Mutex
+	ch      chan *Worker
+	ws      []*Worker
+	mu      sync.Mutex
 	Crashes int
 }
 
